@@ -162,6 +162,14 @@ def run(chk, replay=None):
     recs, ctx, samples = X.class_trace_records(embs, rng, nest_samples=len(X.all_triples(embs)) if tier == "thorough" else 450)
     mrecs, mctx = X.mixed_trace_records(embs, rng, start_id=max(r["id"] for r in recs) + 1)
     recs, ctx = recs + mrecs, {**ctx, **mctx}
+    from ..expr_carrier import carrier_trace_records
+
+    crecs, cctx, cskipped = carrier_trace_records(embs, chk.seed, start_id=max(r["id"] for r in recs) + 1)
+    recs, ctx = recs + crecs, {**ctx, **cctx}
+    chk.part("symbolic_non_sympy_attribute", records=len(crecs), classes=sorted({v["cls"] for v in cctx.values()}), skipped=cskipped,
+             what="a class-valued non-SymPy attribute replaced by a sympy.Lambda that carries a free symbol; substitutions hitting that symbol")
+    if not crecs:
+        raise Machinery("no class with a symbolic non-SymPy attribute could be built")
     errors = [r for r in recs if r["op"] == "error"]
     good = [r for r in recs if r["op"] != "error"]
     tv = trace.validate("Trace_Expr", good, cfg=TRACE_CFG, timeout=2400)
@@ -171,12 +179,20 @@ def run(chk, replay=None):
              classes=len({ctx[r["id"]]["cls"] for r in good}), operations_raised=len(errors), mixed_map_records=len(mrecs))
     for s in samples:
         chk.sample(s)
-    for need in ("subst_changed", "subst_nested", "identity_nested", "eq_equal", "eq_differ_in_attr_only"):
+    for need in ("subst_changed", "subst_nested", "identity_nested", "eq_equal", "eq_differ_in_attr_only", "commute_observed"):
         if tv.stats.get(need, 0) == 0:
             raise Machinery(f"vacuous trace: antecedent {need} never held ({tv.stats})")
     byid = {r["id"]: r for r in recs}
     for clause, rid, *_ in tv.rejects:
-        X.classify_class_reject(chk, clause, byid[rid], ctx[rid])
+        i = ctx[rid]
+        if i.get("carrier"):
+            case = {"record": rid, **{k: v for k, v in i.items() if k in ("cls", "obj", "what", "res")}}
+            if clause == "SubstThenUnfoldEqualsUnfoldThenSubst":
+                chk.violation(f"unevaluated.{i['opname']}:symbolic-non-sympy-attribute:substitute-then-unfold-differs", f"{i['cls']}: {i['obj']}: {i['what']}", case)
+            else:
+                chk.violation(f"unevaluated.{i['opname']}:symbolic-non-sympy-attribute:not-substituted", f"{i['cls']}: {i['obj']}.{i['what']} = {i.get('res')} ({clause})", case)
+            continue
+        X.classify_class_reject(chk, clause, byid[rid], i)
     for r in errors:
         i = ctx[r["id"]]
         chk.violation(f"unevaluated.{i['opname']}:raises-{i['exc']}", f"{i['cls']}: {i['obj']}: {i['what']}", i)
